@@ -450,6 +450,17 @@ for _p in ('C18', 'C13'):
 NATIVE_DEC = [(UN, 'native.decoder::SequenceOrSetPayloadDecoder.__call__'), (UN, 'native.decoder::SequenceOfOrSetOfPayloadDecoder.__call__'),
               (UN, 'native.decoder::ChoicePayloadDecoder.__call__')]
 PROPS['C17']['contracts'] = PROPS['C17']['contracts'] + NATIVE_DEC
+PROPS['C19']['level_text'] += (' SEQUENCE / SET objects: setComponentByPosition (declared, placeholder and undeclared records; one slot per '
+                               'declared component, other slots untouched, refused => unchanged), getComponentByPosition, clear, reset, isValue, '
+                               'name-addressed access (= position-addressed access at the position of the name) over a symbolic slot list; '
+                               'CHOICE with any number of alternatives keeps at most one slot occupied; __iter__ and extend of SEQUENCE OF.')
+PROPS['C16']['level_text'] += (' The schemaless constructed decoder is under contract: every decoded element is kept, in wire order, in a '
+                               'container that is a value (never None, an empty one is cleared), for any number of elements.')
+PROPS['C09']['level_text'] = PROPS['C09'].get('level_text', '') + (
+    ' Discharged on the real decoders for all inputs: the component loops of SEQUENCE/SET (any schema: positions by the '
+    'element\'s own tags, OPTIONAL/DEFAULT skipped, every mandatory member present) and SEQUENCE OF (wire order), constructed '
+    'OCTET STRING and BIT STRING in definite and indefinite form (fragments in order, each with its unused-bits count), '
+    'BitString.fromOctetString, CHOICE (tagged: inner element; untagged: re-dispatch), NamedTypes lookups.')
 for _p in list(PROPS):
     NOT_CLAIMED.pop(_p, None)
 
